@@ -20,9 +20,10 @@ from .symnum import HarnessError
 
 # abstract actions
 LOCAL, TEST_PRESENT, RET_TABLE, ALLOC, STORE, RET_SELF, SETDEFAULT_RET, SETDEFAULT_ASSIGN, \
-    RET_OTHER, LOCK_ACQ, LOCK_REL, BRANCH_LOCAL, END = range(13)
+    RET_OTHER, LOCK_ACQ, LOCK_REL, BRANCH_LOCAL, END, SETDEFAULT_DISCARD = range(14)
 NAMES = ["LOCAL", "TEST_PRESENT", "RET_TABLE", "ALLOC", "STORE", "RET_SELF", "SETDEFAULT_RET",
-         "SETDEFAULT_ASSIGN", "RET_OTHER", "LOCK_ACQ", "LOCK_REL", "BRANCH_LOCAL", "END"]
+         "SETDEFAULT_ASSIGN", "RET_OTHER", "LOCK_ACQ", "LOCK_REL", "BRANCH_LOCAL", "END",
+         "SETDEFAULT_DISCARD"]
 
 
 class Step:
@@ -180,6 +181,11 @@ class Extractor:
                 raise HarnessError(f"unmodelled statement touching the table: {ast.unparse(st)}")
             i = self.add(st, LOCAL)
             return [(i, "next")]
+        if isinstance(st, ast.Expr) and isinstance(st.value, ast.Call) and \
+                isinstance(st.value.func, ast.Attribute) and st.value.func.attr == "setdefault" and \
+                _is_table(st.value.func.value, t):
+            i = self.add(st, SETDEFAULT_DISCARD)     # inserts if absent, result thrown away
+            return [(i, "next")]
         if isinstance(st, (ast.Expr, ast.AugAssign, ast.AnnAssign, ast.Pass)):
             if _mentions(st, t):
                 raise HarnessError(f"unmodelled statement touching the table: {ast.unparse(st)}")
@@ -276,6 +282,9 @@ def search(steps: List[Step], threads: int, timeout_ms: int = 60000) -> Dict[str
                     newtab = z3.If(tab[t] == 0, slf[t][k], tab[t])
                     eff = z3.And(pc[t + 1][k] == nxt, tab[t + 1] == newtab, slf[t + 1][k] == newtab,
                                  keep_ret, keep_lock)
+                elif a == SETDEFAULT_DISCARD:
+                    newtab = z3.If(tab[t] == 0, slf[t][k], tab[t])
+                    eff = z3.And(pc[t + 1][k] == nxt, tab[t + 1] == newtab, keep_self, keep_ret, keep_lock)
                 elif a == RET_OTHER:
                     eff = z3.And(pc[t + 1][k] == nxt, ret[t + 1][k] == -1, keep_tab, keep_self, lk)
                 elif a == LOCK_ACQ:
